@@ -16,7 +16,7 @@ pub fn meta() -> Meta {
     Meta {
         id: "C11",
         level: "model_checking",
-        rule: "(1)+(2) configuration sweep through the real CLI with real thread pools: subcommand in {build, align, map aln, map vcf, distance, lo with reference, lo without} x input kind {.skf, sequence files} where accepted x sample count in {2,9,10,11,19,20,21,29,30,31} (both sides of every step of the 10-samples-per-thread rule; build additionally 69,70,149,150 for split depth 3 and 4) x thread counts (quick: 1,2,3,4,8,16 and all 1..16 at n=10 and 21; thorough: all 1..16) x hash seeds {s, s+1} (thorough 4): exit status 0 whenever the 1-thread run exits 0 and output equal to the 1-thread/seed-s output — byte-exact for map, distance and lo with reference, as a table for build (every sample in its input column), as a column multiset for align, as a column multiset modulo complement for reference-free lo; plus `ska lo -r` on a reference with a three-copy repeat and junction SNPs under 8 (thorough 24) hash seeds x threads 1,2,4, all outputs identical. (3) schedule exploration of the only racy structure (DashMap neighbour vectors in skalo::build_graph): an explicit-state model enumerates every interleaving of the per-row push operations of W=2,3 workers pulling rows from a shared iterator and collects the set R of reachable final graphs; every element of R is fed through the real identify_good_kmers + build_variant_groups and must give the same, planted result; real multi-threaded build_graph runs must land inside R; 1-thread runs on permuted rows must equal the model's result for that item order. states/transitions are those of the interleaving model; traces_validated = elements of R replayed through the real downstream code + real runs checked for membership.".into(),
+        rule: "(1)+(2) configuration sweep through the real CLI with real thread pools: subcommand in {build, align, map aln, map vcf, distance, lo with reference, lo without} x input kind {.skf, sequence files} where accepted x sample count in {2,9,10,11,19,20,21,29,30,31} (both sides of every step of the 10-samples-per-thread rule; build additionally 69,70,149,150 for split depth 3 and 4) x thread counts (quick: 1,2,3,4,8,16 and all 1..16 at n=10 and 21; thorough: all 1..16) x hash seeds {s, s+1} (thorough 4): exit status 0 whenever the 1-thread run exits 0 and output equal to the 1-thread/seed-s output — byte-exact for map, distance and lo with reference, as a table for build (every sample in its input column), as a column multiset for align, as a column multiset modulo complement for reference-free lo; plus `ska lo -r` under 8 (thorough 24) hash seeds x threads 1,2,4 on (a) a triallelic SNP and (b) a reference with a three-copy repeat and junction SNPs: all outputs identical. (3) schedule exploration of the only racy structure (DashMap neighbour vectors in skalo::build_graph): an explicit-state model enumerates every interleaving of the per-row push operations of W=2,3 workers pulling rows from a shared iterator and collects the set R of reachable final graphs; every element of R is fed through the real identify_good_kmers + build_variant_groups and must give the same, planted result; real multi-threaded build_graph runs must land inside R; 1-thread runs on permuted rows must equal the model's result for that item order. states/transitions are those of the interleaving model; traces_validated = elements of R replayed through the real downstream code + real runs checked for membership.".into(),
         assumptions: vec![
             "rayon's internal scheduling is not explored; outside skalo there is no shared mutable state (fork-join over disjoint slices, ordered collection), and the sweep would expose a violation of that argument as an output difference".into(),
             "each DashMap entry operation is atomic (the entry guard holds the shard lock for the statement)".into(),
@@ -190,34 +190,57 @@ pub fn run_sweep(ctx: &Ctx, rep: &mut Report) {
         rep.corner(&format!("{cmd:?}"));
         let _ = base_tail;
     }
-    // reference-mode ska lo on a reference with a three-copy repeat: positioning votes come out of hash maps,
-    // so the result must not depend on the hash seed (8 seeds) or the thread count
+    // reference-mode ska lo under many hash seeds: (a) a triallelic SNP in unique sequence, (b) a reference with a
+    // three-copy repeat and junction SNPs. All outputs must be identical whatever the hash seed or thread count.
     if !rep.capped {
-        idx += 1;
-        if ctx.mine(idx) {
-            let k = 17usize;
-            let body = lo::ancestor(16 * k + 2 * k + 6, k, ctx.seed + 99);
-            let r = body[..2 * k + 6].to_vec();
-            let u: Vec<Vec<u8>> = (0..4).map(|i| body[2 * k + 6 + i * 4 * k..2 * k + 6 + (i + 1) * 4 * k].to_vec()).collect();
-            let reference: Vec<u8> = [u[0].clone(), r.clone(), u[1].clone(), r.clone(), u[2].clone(), r.clone(), u[3].clone()].concat();
-            let c1 = u[0].len();
-            let c2 = c1 + r.len() + u[1].len();
-            // junction SNPs: the base right after copy 1 and right before copy 2; ordinary SNPs in unique sequence
-            let sites = vec![c1 + r.len(), c2 - 1, 2 * k, c2 + r.len() + 2 * k, reference.len() - 2 * k];
+        for fam in ["triallelic", "three-copy repeat"] {
+            idx += 1;
+            if !ctx.mine(idx) {
+                continue;
+            }
+            let k = 21usize;
             let n = 6usize;
-            let samples: Vec<Vec<Vec<u8>>> = (0..n)
-                .map(|i| {
-                    let mut s = reference.clone();
-                    for (j, p) in sites.iter().enumerate() {
-                        if (i + j) % 3 != 0 {
-                            s[*p] = lo::alt_base(reference[*p], 1 + ((j % 2) as u8));
+            let (reference, samples): (Vec<u8>, Vec<Vec<Vec<u8>>>) = if fam == "triallelic" {
+                let g = lo::ancestor(12 * k, k, ctx.seed + 98);
+                let sites = [4 * k, 8 * k];
+                let smp = (0..n)
+                    .map(|i| {
+                        let mut s = g.clone();
+                        s[sites[0]] = lo::alt_base(g[sites[0]], (i % 3) as u8); // three alleles
+                        if i % 2 == 0 {
+                            s[sites[1]] = comp(s[sites[1]]);
                         }
-                    }
-                    vec![if i % 2 == 1 { rc_str(&s) } else { s }]
-                })
-                .collect();
+                        vec![if i % 2 == 1 { rc_str(&s) } else { s }]
+                    })
+                    .collect();
+                (g, smp)
+            } else {
+                let (rlen, ulen) = (8 * k, 24 * k);
+                let body = lo::ancestor(rlen + 4 * ulen, k, ctx.seed + 99);
+                let r = body[..rlen].to_vec();
+                let u: Vec<Vec<u8>> = (0..4).map(|i| body[rlen + i * ulen..rlen + (i + 1) * ulen].to_vec()).collect();
+                let reference: Vec<u8> = [u[0].clone(), r.clone(), u[1].clone(), r.clone(), u[2].clone(), r.clone(), u[3].clone()].concat();
+                let c1 = u[0].len();
+                let c2 = c1 + r.len() + u[1].len();
+                // junction SNPs: the base right after copy 1 and right before copy 2; ordinary SNPs in unique sequence
+                let sites = vec![c1 + r.len(), c2 - 1, 4 * k, c1 + r.len() + 10 * k, c2 + r.len() + 6 * k, reference.len() - 4 * k];
+                let smp = (0..n)
+                    .map(|i| {
+                        let mut s = reference.clone();
+                        for (j, p) in sites.iter().enumerate() {
+                            if (i + j) % 3 != 0 {
+                                s[*p] = lo::alt_base(reference[*p], 1 + ((j % 2) as u8));
+                            }
+                        }
+                        vec![if i % 2 == 1 { rc_str(&s) } else { s }]
+                    })
+                    .collect();
+                (reference, smp)
+            };
             let dir = scratch::path("c11rep");
+            // canonical output -> configurations; and per configuration the called positions / ALT strings
             let mut outs: std::collections::BTreeMap<String, Vec<(usize, u64)>> = std::collections::BTreeMap::new();
+            let mut called: Vec<std::collections::BTreeMap<usize, String>> = Vec::new();
             let nseeds = if thorough { 24 } else { 8 };
             let mut ok = true;
             for hs in 0..nseeds {
@@ -226,22 +249,40 @@ pub fn run_sweep(ctx: &Ctx, rep: &mut Report) {
                     rep.nontrivial += 1;
                     match lo::run_lo(&dir, k, &samples, Some(&reference), &[], t, Some(ctx.seed + hs)) {
                         Ok(o) if o.code == 0 => {
-                            let canon = format!("{:?}|{:?}|{:?}", o.snp_seqs, o.snps_vcf, o.pseudo.map(|p| p.1));
+                            let canon = format!("{:?}|{:?}|{:?}", o.snp_seqs, o.snps_vcf, o.pseudo.as_ref().map(|p| &p.1));
                             outs.entry(canon).or_default().push((t, ctx.seed + hs));
+                            let mut m = std::collections::BTreeMap::new();
+                            for l in o.snps_vcf.unwrap_or_default().lines() {
+                                if !l.starts_with('#') {
+                                    let f: Vec<&str> = l.split('\t').collect();
+                                    if f.len() > 4 {
+                                        m.insert(f[1].parse::<usize>().unwrap_or(0), f[4].to_string());
+                                    }
+                                }
+                            }
+                            called.push(m);
                         }
                         Ok(o) => {
                             ok = false;
-                            rep.violate(format!("lo-ref repeat family threads={t} seed={hs}"), format!("ska lo -r on the repeat reference exits {} {}", o.code, o.stderr_tail), json!({"cmd": "LoRefRepeat", "threads": t, "hash_seed": hs}));
+                            rep.violate(format!("lo-ref {fam} family threads={t} seed={hs}"), format!("ska lo -r ({fam} family) exits {} {}", o.code, o.stderr_tail), json!({"cmd": "LoRefSeeds", "family": fam, "threads": t, "hash_seed": hs}));
                         }
                         Err(e) => rep.machinery(e),
                     }
                 }
             }
-            rep.corner("lo_ref_with_three_copy_repeat");
-            rep.extra.insert("max_lo_ref_repeat_distinct_outputs".into(), json!(outs.len()));
+            rep.corner(&format!("lo_ref_many_seeds[{fam}]"));
+            rep.extra.insert(format!("max_lo_ref_distinct_outputs[{fam}]"), json!(outs.len()));
             if ok && outs.len() > 1 {
+                // what varies: positions that are called in some runs only; positions whose ALT string varies
+                let all: std::collections::BTreeSet<usize> = called.iter().flat_map(|m| m.keys().copied()).collect();
+                let unstable_pos: Vec<usize> = all.iter().copied().filter(|p| !called.iter().all(|m| m.contains_key(p))).collect();
+                let unstable_alt: Vec<usize> = all.iter().copied().filter(|p| called.iter().filter_map(|m| m.get(p)).collect::<std::collections::BTreeSet<_>>().len() > 1).collect();
                 let groups: Vec<String> = outs.values().map(|v| format!("{v:?}")).collect();
-                rep.violate("lo-ref repeat family: outputs differ".into(), format!("ska lo -r on a reference with a three-copy repeat gives {} different results depending on (threads, hash seed): {}", outs.len(), groups.join(" vs ")), json!({"cmd": "LoRefRepeat", "groups": groups}));
+                rep.violate(
+                    format!("lo-ref {fam} family: positions called in some runs only {unstable_pos:?}; positions whose ALT order varies {unstable_alt:?}"),
+                    format!("ska lo -r ({fam} family) gives {} different results depending on (threads, hash seed): positions called in some runs only {unstable_pos:?}, positions whose ALT field varies {unstable_alt:?}; groups {}", outs.len(), groups.join(" vs ")),
+                    json!({"cmd": "LoRefSeeds", "family": fam, "unstable_positions": unstable_pos, "unstable_alt": unstable_alt, "groups": groups}),
+                );
             }
         }
     }
